@@ -107,6 +107,19 @@ def run(ctx):
         ok = bool(st_calls) and all(any(o.kind in ("place", "param") for o in origins(ep, c.args[-1])) and "bool" == ep.locals[op_local(c.args[-1])]["ty"] for c in st_calls if op_local(c.args[-1]) is not None)
         srcs = [{tuple(o.proj) for o in origins(ep, c.args[-1]) if o.kind in ("place", "param")} for c in st_calls]
         r2.check(ok and len({frozenset(s_) for s_ in srcs}) == 1, "entrypoint-forwards-flag", "every startup path receives the same admin_only parameter", "startup calls do not all receive client_entrypoint's admin_only parameter")
+    # a connection either sees admin_only = true when it is accepted, or is subscribed when it is accepted: flag and subscription are taken in the
+    # same turn of main's loop (the one that also holds the SIGINT arm), so that no SIGINT fits between them. A subscription taken later, inside the
+    # client's task, misses a broadcast sent while the client was still silent after connecting - it logs in with admin_only = false and is never told
+    subs = list(F.all_calls("re:^tokio::sync::broadcast::Sender(<.*>)?::subscribe$"))
+    late = sorted({c.body.name for c in subs if c.body.name != MAIN})
+    r2.check(bool(subs) and not late, "subscribed-when-accepted", "the shutdown broadcast is subscribed to only in main's loop (%d site(s)), in the turn that accepts the connection and captures admin_only" % len(subs),
+             "the shutdown broadcast is subscribed to in %s, inside the client's own task: a SIGINT between accept and that point is sent before the subscription and after admin_only was captured - the client is neither refused nor ever told, "
+             "starts transactions during the shutdown and holds the process until shutdown_timeout" % [x.replace("::{closure#0}", "") for x in late])
+    if m and ep:
+        in_main = [c for c in subs if c.body.name == MAIN]
+        eps = ep.calls("pgcat::client::Client::startup", "pgcat::client::startup_tls", "pgcat::client::Client::cancel")
+        rx_from_param = bool(eps) and all(any(o.kind == "param" for a in c.args if op_local(a) is not None and "broadcast::Receiver" in ep.locals[op_local(a)]["ty"] for o in origins(ep, a)) for c in eps)
+        r2.check(bool(in_main) and rx_from_param, "subscription-reaches-the-client", "the Receiver every Client is built with is client_entrypoint's parameter (main's subscription)", "a Client is built with a Receiver that is not the one main subscribed for it")
     from common import admin_only_gate
     gok, gwhy = admin_only_gate(F)
     if gok is None:
